@@ -1,7 +1,7 @@
 """Configuration of ./check C02 (see pylib/props.py)."""
 CFG = dict(
         coq=["props/C02.vo"],
-        tie=["gen/Tie_C02.vo"],
+        tie=["gen/Tie_C02.vo", "gen/Tie_Code_StrListSeek.vo"],
         model_vo=["model/Sorter.vo", "model/SorterSpec.vo", "model/Ingest.vo", "model/IngestSpec.vo"],
         extract="Ex_C02",
         level_text="Theorem C02_canonical: equal header and key and Permutation-equal rows with unique keys give the SAME "
